@@ -357,6 +357,13 @@ def evolve_pair(rng, **kw):
         for ty in ('double', 'float', rng.choice(list(SCALARS))):
             tb['fields'].append({'name': 'f%d' % len(tb['fields']), 'kind': 'scalar', 'type': ty, 'required': False,
                                  'default': rng.choice(DEFAULTS[ty])})
+        # ... and non-scalar fields of the kinds whose absent-field accessors differ (nested buffers, strings, tables, unions)
+        tb['fields'].append({'name': 'f%d' % len(tb['fields']), 'kind': 'nested_table', 'type': B['tables'][-1]['name'], 'required': False})
+        if B['struct_order']:
+            tb['fields'].append({'name': 'f%d' % len(tb['fields']), 'kind': 'nested_struct', 'type': B['struct_order'][0], 'required': False})
+        tb['fields'].append({'name': 'f%d' % len(tb['fields']), 'kind': rng.choice(['string', 'vec_string', 'table', 'vec_table']), 'type': B['tables'][0]['name'], 'required': False})
+        if B['unions']:
+            tb['fields'].append({'name': 'f%d' % len(tb['fields']), 'kind': rng.choice(['union', 'vec_union']), 'type': B['unions'][-1]['name'], 'required': False})
     for ub in B['unions']:
         if small and ('s', small[0]) not in ub['members']: ub['members'].append(('s', small[0]))
     # B deprecates some non-required fields that A still has
@@ -400,6 +407,15 @@ def render_dumper(S, mask=None):
                 if k == 'scalar' and not f.get('deprecated'):
                     ct = {'bool': 'flatbuffers_bool_t', 'byte': 'int8_t', 'ubyte': 'uint8_t', 'short': 'int16_t', 'ushort': 'uint16_t', 'int': 'int32_t', 'uint': 'uint32_t', 'long': 'int64_t', 'ulong': 'uint64_t', 'float': 'float', 'double': 'double'}[ty]
                     o.append('  { %s v = %s_%s(t); printf("%s.%s!=%%s", %s_%s_is_present(t) ? "+" : "-"); dump_hex(&v, sizeof(v)); printf(";"); }' % (ct, T, N, T, N, T, N))
+                elif not f.get('deprecated'):
+                    # a non-scalar field the other (older) version does not have: every accessor must report it absent on an old buffer
+                    acc = {'struct': ['%s_%s(t) != 0'], 'string': ['%s_%s(t) != 0'], 'vec_scalar': ['%s_%s(t) != 0'], 'vec_struct': ['%s_%s(t) != 0'],
+                           'vec_string': ['%s_%s(t) != 0'], 'table': ['%s_%s(t) != 0'], 'vec_table': ['%s_%s(t) != 0'],
+                           'union': ['%s_%s_type(t) != 0', '%s_%s(t) != 0'], 'vec_union': ['%s_%s_union(t).type != 0', '%s_%s_union(t).value != 0'],
+                           'nested_table': ['%s_%s(t) != 0', '%s_%s_as_root(t) != 0', '%s_%s_as_typed_root(t) != 0'],
+                           'nested_struct': ['%s_%s(t) != 0', '%s_%s_as_root(t) != 0', '%s_%s_as_typed_root(t) != 0']}.get(k, [])
+                    cond = ' || '.join('(%s)' % (x % (T, N)) for x in acc) or '0'
+                    o.append('  printf("%s.%s!=%%s;", (%s_%s_is_present(t) || %s) ? "?" : "~");' % (T, N, T, N, cond))
                 continue
             a = '%s_%s' % (T, N)
             o.append('  printf("%s=");' % N)
